@@ -1747,6 +1747,20 @@ impl<'a> Gen<'a> {
             9 => {
                 let mut cs = self.update_prefix(&mut env);
                 let read = Self::scalar_env(&env);
+                // sometimes the clauses also work on what a leading CREATE / MERGE of the same
+                // statement made
+                match self.t.weighted(&[60, 25, 15]) {
+                    1 => {
+                        let full = env.clone();
+                        let pats = vec![self.write_path(&mut env, &full, false, 1)];
+                        cs.push(Clause::Create { pats });
+                    }
+                    2 => {
+                        let pat = self.write_path(&mut env, &read, true, 1);
+                        cs.push(Clause::Merge { pat, on_create: vec![], on_match: vec![] });
+                    }
+                    _ => {}
+                }
                 let n = 2 + self.t.draw(2);
                 let before = cs.len();
                 for _ in 0..n {
@@ -1765,6 +1779,13 @@ impl<'a> Gen<'a> {
                 }
                 if cs.len() == before {
                     cs.push(Clause::Create { pats: vec![PathPat { start: NodePat::default(), steps: vec![] }] });
+                } else if self.t.chance(15) {
+                    // ... and finally deletes one of the entities it has just updated
+                    let ents = env.entities();
+                    if !ents.is_empty() {
+                        let (v, _) = ents[self.t.draw(ents.len())];
+                        cs.push(Clause::Delete { detach: true, exprs: vec![Expr::var(v)] });
+                    }
                 }
                 cs
             }
